@@ -160,6 +160,12 @@ def impl_call(case):
     if op == 'ext_curve':
         def f():
             law = make_law(case['law'])
+            for pr in case.get('prior', []):
+                # what the same law object was used for before must not matter: results discarded
+                try:
+                    law.extinction_curve(make_ebv(pr['ebv']), wavelengths=make_wave(pr['wave']))
+                except Exception:   # noqa
+                    pass
             c = law.extinction_curve(make_ebv(case['ebv']), wavelengths=make_wave(case['wave']))
             out = curve_outcome(c, [fl(x) for x in case['at']])
             out['cls'] = type(c).__name__
@@ -536,12 +542,43 @@ def gen_ebv(rng, allow_bad=True):
     return {'kind': 'mag' if py in ('mag', 'Magnitude') else 'real', 'py': py, 'v': q(v)}
 
 
+def related_grid(rng, wave, law, nmax):
+    """a sampling grid related to `wave` the way a stale memo would confuse them: same length and end points with
+    other interior points, the same points in the other order, the same length elsewhere, or an unrelated grid"""
+    if wave is None or 'arr' not in wave or len(wave['arr']) < 3:
+        return gen_grid(rng, law, nmax, allow_bad=False)
+    v = [fl(x) for x in wave['arr']]
+    if wave_error_class(v) is not None:
+        return gen_grid(rng, law, nmax, allow_bad=False)
+    k = rng.random()
+    if k < 0.45:
+        lo, hi = min(v), max(v)
+        inner = set()
+        while len(inner) < len(v) - 2:
+            inner.add(math.exp(rng.uniform(math.log(lo), math.log(hi))) if rng.random() < 0.7 else rng.uniform(lo, hi))
+            inner.discard(lo); inner.discard(hi)
+        w = [lo] + sorted(inner) + [hi]
+        if v[0] > v[-1]:
+            w = w[::-1]
+    elif k < 0.6:
+        w = v[::-1]
+    elif k < 0.8:
+        f = rng.choice([0.5, 0.75, 1.5, 2.0])
+        w = [x * f for x in v]
+    else:
+        return gen_grid(rng, law, nmax, allow_bad=False)
+    return {'arr': qs(w), 'py': rng.choice(['ndarray', 'list', 'AA'])}
+
+
 def case_ext_curve(rng, nmax):
     law = gen_law(rng, nmax)
     wave = gen_grid(rng, law, nmax)
     c = {'op': 'ext_curve', 'law': law, 'ebv': gen_ebv(rng), 'wave': wave}
     g = grid_of(c)
     c['at'] = qs(g) if wave_error_class(g) is None and len(g) >= 1 else []
+    if rng.random() < 0.4:
+        c['prior'] = [{'ebv': gen_ebv(rng, allow_bad=False), 'wave': related_grid(rng, wave, law, nmax)}
+                      for _ in range(rng.randint(1, 3))]
     return c
 
 
@@ -714,6 +751,8 @@ def tags(c, o):
     t = [c['op'], c['op'] + ':outcome:' + (o.get('err') or 'ok')]
     if c['op'] in ('ext_curve', 'ext_apply'):
         t.append('ebv:' + c['ebv']['py'])
+    if c['op'] == 'ext_curve':
+        t.append('prior_calls:%d' % len(c.get('prior', [])))
     if c['op'] == 'madau':
         t.append('madau_wave:' + c['wave']['py'])
     return t
@@ -747,7 +786,7 @@ def run(rep):
                 'either way; 5% with zero/negative entries or tapered ends for model validation) x E(B-V) in [-5, 5] as '
                 'float / int / NumPy scalar / mag Quantity / Magnitude (and 6% invalid objects) x sampling grids (None = '
                 'own waveset, arrays inside/beyond the law range, on law knots, both orders, list/ndarray/Quantity; 6% '
-                'invalid, 2.5% shorter than two points); pairs (a, b) on the lattice 1/64 with a, b, a+b in [-5, 5]; '
+                'invalid, 2.5% shorter than two points; 40% of the curves are requested after 1..3 earlier requests on the same law object with grids of the same length and end points, the reversed grid, a rescaled or an unrelated grid); pairs (a, b) on the lattice 1/64 with a, b, a+b in [-5, 5]; '
                 'table / constant / Gaussian sources x curve in both operand orders; Madau: z in [0, 10] on dyadic '
                 'lattices (int, float, NumPy; plus a few z in (-1, 0), z <= -1, z in (10, 80], non-numbers) x grids of '
                 '2..N wavelengths 0.5 A .. 2 x 1216 (1+z) incl. points exactly on the region boundaries, as '
